@@ -362,6 +362,8 @@ class E3(object):
         self.ctx = ''
         self.notes = []
         self.mixed = []       # (function, what, char atoms, byte atoms)
+        self.pruned = {}      # function npath -> set of blocks entered only through branches found infeasible
+        self.entered = {}     # function npath -> set of blocks some world entered
 
     # ---------- facts ----------
     def facts_of(self, w):
@@ -514,6 +516,9 @@ class E3(object):
             return self.add(w, *facts), ('adt', old[1], old[2], tuple(fs))
         return w, TOP
 
+    def on_pruned(self, fn, bb_from, bb_to):
+        self.pruned.setdefault(fn.npath, set()).add((bb_from, bb_to))
+
     def note_mix(self, I, what, *forms):
         m = unit_mix(*forms)
         if m:
@@ -628,6 +633,12 @@ class E3(object):
         return (w.with_st(st) if len(st) != len(w.st) else w), atom
 
     def on_edge(self, I, fn, bb, nbb, w, depth):
+        ent = self.entered.setdefault(fn.npath, {0})
+        ent.add(bb)
+        ent.add(nbb)
+        return self.on_edge_(I, fn, bb, nbb, w, depth)
+
+    def on_edge_(self, I, fn, bb, nbb, w, depth):
         info = cfg_of(fn)
         if (bb, nbb) not in info['back']:
             return w
@@ -1414,6 +1425,52 @@ def analyse(lib, res, cfg):
 VALUE_SET_FNS = {'utils::encode_utf8'}
 
 
+def infeasible_only(rule, lib, key, rev_keymap):
+    """Is the (never visited) site's block cut off from everything the analysis entered only by branches it refuted?
+    Let E be the blocks some world entered.  Every edge X -> Y with X in E, Y not in E from which the site's block can be
+    reached (through blocks outside E) must have been pruned as infeasible under the path facts - and there must be at
+    least one such edge.  Otherwise the block is unreached for another reason (a path that died, a loop that was cut) and
+    nothing can be said about it."""
+    raw = rev_keymap.get(key)
+    if raw is None:
+        return False
+    fnp = key.split('|')[0]
+    try:
+        bb = int(raw.rsplit('|bb', 1)[1])
+        f = lib.fn(fnp)
+    except (IndexError, ValueError, KeyError):
+        return False
+    pruned = rule.pruned.get(fnp, set())
+    entered = rule.entered.get(fnp)
+    if not pruned or not entered or bb in entered:
+        return False
+    succ = {}
+    for i, b_ in enumerate(f.blocks):
+        t = b_['term']
+        if b_['cleanup']:
+            succ[i] = []
+        elif t['k'] == 'switch':
+            succ[i] = list(t['targets']) + [t['otherwise']]
+        elif t.get('t') is not None:
+            succ[i] = [t['t']]
+        else:
+            succ[i] = []
+
+    def reaches(y):
+        seen, work = {y}, [y]
+        while work:
+            x = work.pop()
+            if x == bb:
+                return True
+            for z in succ.get(x, ()):
+                if z not in seen and z not in entered:
+                    seen.add(z)
+                    work.append(z)
+        return False
+    frontier = [(x, y) for x in entered for y in succ.get(x, ()) if y not in entered and reaches(y)]
+    return bool(frontier) and all(e in pruned for e in frontier)
+
+
 def check_helper_contracts(lib, res, cfg, keymap):
     """The contracts of the scalar-counting helpers used above are themselves proved from their MIR (counter lemma):
        char_count(t) <= len(t);  char_byte_index(t, k) = Some(p) => p < len(t);  common_prefix_len(a, b) <= len(a), len(b)."""
@@ -1557,6 +1614,7 @@ def run_(ctx, res):
             if len(cands) == len(es_):
                 for k, e_ in zip(cands, es_):
                     rename_ok[k] = e_
+        rev_keymap = {v_: k_ for k_, v_ in rule.keymap.items()}
         for key in sorted(inv):
             s = sites.get(key)
             fnp = key.split('|')[0]
@@ -1564,6 +1622,10 @@ def run_(ctx, res):
             if not vs and fnp.split('::{closure')[0] in analysed and fnp in PRECONDITIONS and key.split('|')[1] == 'panic':
                 # the failing arm of a `debug_assert!` that restates the helper's `# Safety` contract: the contract is a
                 # fact inside the helper (and an obligation at each of its call sites), so the arm is pruned as infeasible
+                verdict = 'discharged'
+            elif not vs and infeasible_only(rule, lib, key, rev_keymap):
+                # e.g. the failing arm of a `debug_assert!` whose condition follows from the struct invariant: every way
+                # into the block leads through a branch the path facts refute
                 verdict = 'discharged'
             elif not vs:
                 verdict = 'unvisited'
